@@ -167,6 +167,66 @@ static void verifier_part(const Grp &G, bool T) {
 	mpz_clear(x); mpz_clear(y); mpz_clear(k); mpz_clear(r); mpz_clear(c); mpz_clear(s); mpz_clear(m); mpz_clear(v); mpz_clear(w); mpz_clear(t);
 }
 
+// ---- unit level: GennaroJareckiKrawczykRabinDKG::Reconstruct in this process ------------------------------------------------
+// party i holds the commitments of dealer d and its own share; the other parties' reconstruction shares are placed into the
+// broadcast layer's delivery buffers (good, bad = +1, out of range, or check-passing but for another point is impossible);
+// the result must be f(0) interpolated from the first t+1 GOOD shares (own share first, then QUAL order).
+static unsigned long n_unit = 0;
+static void reconstruct_unit(const Grp &G, size_t n, size_t t, size_t i, size_t d, const std::vector<int> &kind /* per party: 0 good, 1 share+1, 2 randomizer+1, 3 out of range */) {
+	n_unit++;
+	// a broadcast object over pipes nobody reads (only Broadcast of the own share writes into them)
+	std::vector<int> fin, fout; std::vector<std::string> key;
+	for (size_t k = 0; k < n; k++) { int pf[2]; if (pipe(pf) < 0) return; fin.push_back(pf[0]); fout.push_back(pf[1]); key.push_back("unit"); }
+	aiounicast_select *aiou = new aiounicast_select(n, i, fin, fout, key, aiounicast::aio_scheduler_roundrobin, aiounicast::aio_timeout_extremely_short);
+	CachinKursawePetzoldShoupRBC *rbc = new CachinKursawePetzoldShoupRBC(n, t, i, aiou, aiounicast::aio_scheduler_roundrobin, aiounicast::aio_timeout_extremely_short);
+	rbc->setID("unit");
+	GennaroJareckiKrawczykRabinDKG dkg(n, t, i, G.p, G.q, G.g, G.h, mpz_sizeinbase(G.p, 2), mpz_sizeinbase(G.q, 2), false, false, "unit");
+	// dealer d's polynomials and commitments
+	std::vector<mpz_t> a(t + 1), b(t + 1);
+	for (size_t k = 0; k <= t; k++) { mpz_init(a[k]); mpz_init(b[k]); gen_below(a[k], G.q); gen_below(b[k], G.q); G.commit(dkg.C_ik[d][k], a[k], b[k]); }
+	auto eval = [&](std::vector<mpz_t> &c, size_t x, mpz_ptr r) { mpz_set_ui(r, 0); for (size_t k = t + 1; k-- > 0; ) { mpz_mul_ui(r, r, x); mpz_add(r, r, c[k]); mpz_mod(r, r, G.q); } };
+	dkg.QUAL.clear(); for (size_t j = 0; j < n; j++) dkg.QUAL.push_back(j);
+	eval(a, i + 1, dkg.s_ij[d][i]); eval(b, i + 1, dkg.sprime_ij[d][i]);
+	// the ID Reconstruct is going to use
+	std::stringstream myID; myID << "GennaroJareckiKrawczykRabinDKG::Reconstruct()" << G.p << G.q << G.g << G.h << n << t << "[" << d << "]";
+	rbc->setID(myID.str()); mpz_t id; mpz_init_set(id, rbc->ID); rbc->unsetID();
+	std::string pts = hx((unsigned long)(i + 1)) + ":" + hx(dkg.s_ij[d][i]); size_t used = 1;
+	mpz_t s1, s2; mpz_init(s1); mpz_init(s2);
+	for (size_t j = 0; j < n; j++) if (j != i && j != d) {
+		eval(a, j + 1, s1); eval(b, j + 1, s2);
+		if (kind[j] == 1) { mpz_add_ui(s1, s1, 1); mpz_mod(s1, s1, G.q); } else if (kind[j] == 2) { mpz_add_ui(s2, s2, 1); mpz_mod(s2, s2, G.q); } else if (kind[j] == 3) mpz_add(s1, s1, G.q);
+		else if (used < t + 1) { pts += "," + hx((unsigned long)(j + 1)) + ":" + hx(s1); used++; }
+		for (int w = 0; w < 2; w++) { mpz_ptr v = new mpz_t(), vid = new mpz_t(); mpz_init_set(v, w ? s2 : s1); mpz_init_set(vid, id); rbc->buf_mpz[j].push_back(v); rbc->buf_id[j].push_back(vid); }
+	}
+	std::vector<mpz_ptr> z; std::vector<std::vector<mpz_ptr> > aik(n);
+	for (size_t j = 0; j < n; j++) { mpz_ptr v = new mpz_t(); mpz_init(v); z.push_back(v); for (size_t k = 0; k <= t; k++) { mpz_ptr w = new mpz_t(); mpz_init(w); aik[j].push_back(w); } }
+	std::ostringstream err; std::vector<size_t> complaints(1, d); bool ok = false; std::string out;
+	try { ok = dkg.Reconstruct(complaints, z, aik, rbc, err); out = ok ? hx(z[d]) : "fail"; } catch (std::exception &e) { out = "throw"; }
+	std::string ks; for (size_t j = 0; j < n; j++) ks += (char)('0' + kind[j]);
+	if (used == t + 1) {
+		Rec("gjkr_reconstruct").z(G.q).t(pts).t(out);
+		if (!ok || mpz_cmp(z[d], a[0]) != 0)
+			propfail("reconstruct-wrong-secret", "GJKR DKG Reconstruct: result " + out + " is not the dealer's secret " + hx(a[0]) + " although t+1 good shares were delivered: n=" + std::to_string(n) +
+				" t=" + std::to_string(t) + " i=" + std::to_string(i) + " d=" + std::to_string(d) + " kinds=" + ks + " q=" + hx(G.q) + " points=" + pts);
+		else for (size_t k = 0; k <= t; k++) if (mpz_cmp(aik[d][k], a[k]) != 0) { propfail("reconstruct-wrong-polynomial", "GJKR DKG Reconstruct: coefficient " + std::to_string(k) + " wrong: kinds=" + ks + " q=" + hx(G.q) + " points=" + pts); break; }
+	} else if (ok) propfail("reconstruct-too-few-shares", "GJKR DKG Reconstruct succeeded with fewer than t+1 good shares: kinds=" + ks + " q=" + hx(G.q));
+	for (size_t k = 0; k < n; k++) { close(fin[k]); close(fout[k]); }
+	mpz_clear(s1); mpz_clear(s2); mpz_clear(id); for (size_t k = 0; k <= t; k++) { mpz_clear(a[k]); mpz_clear(b[k]); }
+}
+static void reconstruct_units(const Grp &G, bool T) {
+	unsigned reps = T ? 40 : 10;
+	for (unsigned r = 0; r < reps; r++) {
+		size_t n = 3 + gen().below(5), t = (n - 1) / 2; if (gen().coin() && t > 1) t--;
+		size_t i = gen().below(n), d; do d = gen().below(n); while (d == i);
+		std::vector<int> kind(n, 0);
+		// one bad share placed among the first t+1 interpolation points (the first parties in QUAL order), then random patterns
+		size_t first = 0; while (first == i || first == d) first++;
+		if (r % 3 == 0) kind[first] = 1 + (int)gen().below(3);
+		else if (r % 3 == 1) { for (size_t j = 0; j < n; j++) if (j != i && j != d && gen().below(3) == 0) kind[j] = 1 + (int)gen().below(3); }
+		reconstruct_unit(G, n, t, i, d, kind);
+	}
+}
+
 // ---- forked signing runs -----------------------------------------------------------------------------------------
 static std::string last_logged(const std::string &log, const std::string &key) {
 	size_t pos = log.rfind(key); if (pos == log.npos) return "";
@@ -188,19 +248,28 @@ static void msg_value(int mk, mpz_ptr m, const Grp &G, bool dss) {
 		default: if (dss) { gen_bits(m, mpz_sizeinbase(G.q, 2)); mpz_setbit(m, mpz_sizeinbase(G.q, 2) - 1); } else gen_bits(m, 200); break; }
 }
 
-static bool schnorr_run_once(std::vector<std::pair<std::string, std::string> > &pending, const Grp &G, size_t n, size_t t, const std::vector<bool> &faulty_in, int mk, uint64_t seed, const std::map<size_t, Deviation> &devs) {
+static bool schnorr_run_once(std::vector<std::pair<std::string, std::string> > &pending, const Grp &G, size_t n, size_t t, const std::vector<bool> &faulty_in, int mk, uint64_t seed, const std::map<size_t, Deviation> &devs, const std::set<size_t> &silent = std::set<size_t>()) {
 	std::vector<std::pair<std::string, std::string> > fails; std::vector<std::string> recs;
 	auto propfail = [&](const std::string &k, const std::string &w) { fails.push_back(std::make_pair(k, w)); };
 	mpz_t m; mpz_init(m); msg_value(mk, m, G, false);
 	// a scripted deviator (wrong private share to a subset during the key DKG or the nonce DKG) runs the honest code over a
 	// tampered unicast channel; it is not counted among the honest signers
 	std::vector<bool> faulty(faulty_in), lib_faulty(faulty_in); for (auto &d : devs) faulty[d.first] = true;
-	bool anyf = std::find(lib_faulty.begin(), lib_faulty.end(), true) != lib_faulty.end();
+	for (size_t sl : silent) faulty[sl] = true;       // takes part in the key generation honestly, then does not sign at all
+	bool anyf = std::find(lib_faulty.begin(), lib_faulty.end(), true) != lib_faulty.end() || !silent.empty();
 	ForkResult FR = fork_parties(n, t, seed, anyf ? aiounicast::aio_timeout_short : aiounicast::aio_timeout_long, anyf ? 400 : 600, [&](size_t i, aiounicast *aiou, CachinKursawePetzoldShoupRBC *rbc, std::ostream &res) {
 		GennaroJareckiKrawczykRabinNTS nts(n, t, i, G.p, G.q, G.g, G.h, mpz_sizeinbase(G.p, 2), mpz_sizeinbase(G.q, 2), false, false);
 		std::ostringstream e1, e2; mpz_t c, s; mpz_init(c); mpz_init(s);
 		bool g = false, ok = false; std::string exc;
-		try { g = nts.Generate(aiou, rbc, e1, lib_faulty[i]); if (g || lib_faulty[i]) ok = nts.Sign(m, c, s, aiou, rbc, e2, lib_faulty[i]); } catch (std::exception &e) { exc = e.what(); }
+		if (devs.count(i) && devs.at(i).bad_recon && tamper_broadcast()) {
+			// every share of another dealer's key polynomial that this party broadcasts (public reconstruction of z_d, 4(c) complaints) is sent as share + 1
+			GennaroJareckiKrawczykRabinDKG *kd = nts.dkg; mpz_srcptr q = G.q; size_t nn = n;
+			tamper_broadcast()->decide = [kd, q, nn, i](mpz_srcptr pl, mpz_ptr rep) -> int {
+				if (mpz_sgn(pl) == 0) return 0;
+				for (size_t d = 0; d < nn; d++) if (d != i && mpz_cmp(pl, kd->s_ij[d][i]) == 0) { mpz_add_ui(rep, pl, 1); mpz_mod(rep, rep, q); return 1; }
+				return 0; };
+		}
+		try { g = nts.Generate(aiou, rbc, e1, lib_faulty[i]); if ((g || lib_faulty[i]) && !silent.count(i)) ok = nts.Sign(m, c, s, aiou, rbc, e2, lib_faulty[i]); } catch (std::exception &e) { exc = e.what(); }
 		bool v = false; try { v = ok && nts.Verify(m, c, s); } catch (...) {}
 		res << "gen=" << g << "\n" << "ret=" << ok << "\n" << "exc=" << exc << "\n" << "c=" << hx(c) << "\n" << "s=" << hx(s) << "\n" << "y=" << hx(nts.y) << "\n" << "verify=" << v << "\n";
 		res << "z=" << hx(nts.z_i) << "\n";
@@ -210,11 +279,12 @@ static bool schnorr_run_once(std::vector<std::pair<std::string, std::string> > &
 		if (getenv("VERIF_DEBUG")) { std::string l = e1.str() + "|SIGN|" + e2.str(); std::replace(l.begin(), l.end(), '\n', '~'); res << "log=" << l << "\n"; }
 	}, devs.empty() ? 0 : &devs, G.q);
 	std::string fs; for (size_t i = 0; i < n; i++) fs += faulty[i] ? '1' : '0';
-	for (auto &d : devs) fs += " deviation of P" + std::to_string(d.first) + ": " + d.second.str() + " pair=" + std::to_string(d.second.pair_base);
+	for (auto &d : devs) fs += " deviation of P" + std::to_string(d.first) + ": " + d.second.str() + " pair=" + std::to_string(d.second.pair_base) + (d.second.bad_recon ? " bad-reconstruction-shares" : "");
+	for (size_t sl : silent) fs += " P" + std::to_string(sl) + " silent in Sign";
 	std::string ctx = "n=" + std::to_string(n) + " t=" + std::to_string(t) + " faulty=" + fs + " seed=" + std::to_string(seed) + " m=" + hx(m) + " p=" + hx(G.p) + " q=" + hx(G.q) + " g=" + hx(G.g) + " h=" + hx(G.h);
 	auto finish = [&]() {
 		if (fails.empty()) { for (auto &r : recs) fputs(r.c_str(), stdout); return true; }
-		if (FR.timing_trouble()) { fprintf(stderr, "c16: schnorr run inconclusive (time-out expired in the run; %s): %s\n", fails[0].first.c_str(), ctx.c_str()); pending = fails; return false; }
+		if (FR.timing_trouble(silent)) { fprintf(stderr, "c16: schnorr run inconclusive (time-out expired in the run; %s): %s\n", fails[0].first.c_str(), ctx.c_str()); pending = fails; return false; }
 		for (auto &f : fails) verif::propfail(f.first, f.second);
 		return true; };
 	fprintf(stderr, "c16: schnorr %s wall=%.1fs\n", ctx.substr(0, 48).c_str(), FR.wall);
@@ -343,16 +413,18 @@ template<class F> static void attempts(const char *what, size_t n, F once) {
 	}
 	fprintf(stderr, "c16: %s n=%zu: no conclusive run in 3 attempts\n", what, n);
 }
-static void schnorr_run(const Grp &G, size_t n, size_t t, const std::vector<bool> &faulty, int mk, uint64_t seed, const std::map<size_t, Deviation> &devs = std::map<size_t, Deviation>()) {
+static void schnorr_run(const Grp &G, size_t n, size_t t, const std::vector<bool> &faulty, int mk, uint64_t seed, const std::map<size_t, Deviation> &devs = std::map<size_t, Deviation>(), const std::set<size_t> &silent = std::set<size_t>()) {
 	n_sign++;
-	attempts("schnorr", n, [&](int attempt, std::vector<std::pair<std::string, std::string> > &pend) { return schnorr_run_once(pend, G, n, t, faulty, mk, seed + 7777 * attempt, devs); });
+	attempts("schnorr", n, [&](int attempt, std::vector<std::pair<std::string, std::string> > &pend) { return schnorr_run_once(pend, G, n, t, faulty, mk, seed + 7777 * attempt, devs, silent); });
 }
 static void dss_run(const Grp &G, size_t n, size_t t, const std::vector<bool> &faulty, int mk, bool refresh, uint64_t seed) {
 	n_sign++;
 	attempts("dss", n, [&](int attempt, std::vector<std::pair<std::string, std::string> > &pend) { return dss_run_once(pend, G, n, t, faulty, mk, refresh, seed + 7777 * attempt); });
 }
 // dev >= 0 (Schnorr only): party dev sends a wrong private share to `victims` in the pair_base/2-th sharing (0 = key DKG, 1 = nonce DKG of Sign)
-struct Cfg { int kind; size_t n, t; std::vector<size_t> bad; int mk; bool refresh; long dev = -1; std::vector<size_t> victims; size_t pair_base = 0; };
+// silent >= 0: that signer takes part in Generate and then stays away from Sign (its key share is reconstructed in public); badrec >= 0: that
+// signer broadcasts wrong reconstruction shares
+struct Cfg { int kind; size_t n, t; std::vector<size_t> bad; int mk; bool refresh; long dev = -1; std::vector<size_t> victims; size_t pair_base = 0; long silent = -1; long badrec = -1; };
 
 int main(int argc, char **argv) {
 	Args A(argc, argv);
@@ -361,7 +433,7 @@ int main(int argc, char **argv) {
 	if (A.only.empty() || A.only == "verify") {
 		std::vector<std::pair<unsigned, unsigned> > sizes = { {16, 40}, {32, 64}, {40, 96} };
 		if (T) { sizes.push_back({64, 128}); sizes.push_back({17, 33}); sizes.push_back({61, 127}); sizes.push_back({96, 192}); sizes.push_back({160, 320}); }
-		for (auto &sz : sizes) { Grp G; G.generate(sz.first, sz.second); if (!G.selfcheck()) return 2; verifier_part(G, T); }
+		for (auto &sz : sizes) { Grp G; G.generate(sz.first, sz.second); if (!G.selfcheck()) return 2; verifier_part(G, T); if (sz.first <= 64) reconstruct_units(G, T); }
 	}
 	if (A.only.empty() || A.only.compare(0, 4, "sign") == 0) {
 		unsigned part = 0, parts = 1;
@@ -374,6 +446,7 @@ int main(int argc, char **argv) {
 			cfgs.push_back({0, 5, 2, {}, 0, false});
 			cfgs.push_back({0, 4, 1, pick(4, 1), 4, false});
 			cfgs.push_back({1, 3, 1, {}, 4, false});
+			cfgs.push_back({0, 7, 2, {}, 4, false, -1, {}, 0, 6, 0});      // P_6 silent in Sign, P_0 broadcasts a wrong reconstruction share
 		} else {
 			int mk = 0;
 			for (size_t n = 3; n <= 7; n++) { size_t t = (n - 1) / 2;
@@ -384,6 +457,14 @@ int main(int argc, char **argv) {
 				cfgs.push_back({1, n, t, {}, mk++, n == 3}); }
 			cfgs.push_back({1, 4, 1, pick(4, 1), mk++, false});
 			cfgs.push_back({1, 7, 3, {}, mk++, false});
+			// a silent signer forces the public reconstruction of its key share; another signer contributes a wrong reconstruction share;
+			// also with the library's fault switch during Generate (reconstruction in the extraction phase of the DKG)
+			cfgs.push_back({0, 7, 2, {}, mk++, false, -1, {}, 0, 6, 0});
+			cfgs.push_back({0, 5, 2, {}, mk++, false, -1, {}, 0, 2, 0});
+			cfgs.push_back({0, 6, 2, {}, mk++, false, -1, {}, 0, 0, 1});
+			cfgs.push_back({0, 7, 3, {}, mk++, false, -1, {}, 0, 3, 1});
+			cfgs.push_back({0, 5, 2, {3}, mk++, false, -1, {}, 0, -1, 0});
+			cfgs.push_back({0, 7, 2, {5}, mk++, false, -1, {}, 0, -1, 0});
 			// a signer deviating towards a subset only (wrong private share, complaint answered correctly) in the nonce DKG / the key DKG.
 			// Observation (docs/C16.md): the victim of such a resolved complaint loses synchronisation in GennaroJareckiKrawczykRabinDKG
 			// (stale cached g^s_ij), so these runs end "inconclusive" (an honest signer fails after time-outs); two configurations only.
@@ -396,7 +477,9 @@ int main(int argc, char **argv) {
 			if (ci % parts != part) continue;
 			std::map<size_t, Deviation> devs;
 			if (c.dev >= 0) { Deviation d; for (size_t v : c.victims) d.wrong.insert(v); d.pair_base = c.pair_base; devs[(size_t)c.dev] = d; }
-			if (c.kind == 0) schnorr_run(G, c.n, c.t, f, c.mk, sd, devs); else dss_run(G, c.n, c.t, f, c.mk, c.refresh, sd); }
+			if (c.badrec >= 0) { Deviation d; d.bad_recon = true; devs[(size_t)c.badrec] = d; }
+			std::set<size_t> silent; if (c.silent >= 0) silent.insert((size_t)c.silent);
+			if (c.kind == 0) schnorr_run(G, c.n, c.t, f, c.mk, sd, devs, silent); else dss_run(G, c.n, c.t, f, c.mk, c.refresh, sd); }
 	}
 	fprintf(stderr, "c16: %lu verifier calls, %lu signing runs\n", n_ver, n_sign);
 	return 0;
